@@ -7,10 +7,11 @@ import LexVerif.Proof.SepStrip5
 * `peek_skips_only_separators`, `parse_digits_yields_nonseparators`: a skip iterator never alters a value by itself —
   what it skips are separator bytes, what it yields are the other bytes, in order.
 * `sep_free_same` (R4): on inputs without the separator byte the model treats a separator format and its
-  separator-free counterpart identically — **for the class of formats whose integer and fraction components both
-  carry separator flags** (`SepClass`). For every other class with a separator byte (integer-only, fraction-only,
-  exponent-only flags, no flags at all) the statement is false on the unchanged tree: `sep_free_witness_*`, and
-  therefore `sep_free_same_full` is refuted (`sep_free_same_full_false`).
+  separator-free counterpart identically — for **every** valid format (`RelClass`: release build, no component with
+  the consecutive flag alone, multi-digit fast paths for radix ≤ 10 only), whatever components carry separator
+  flags; `sep_free_same_full` is proved (`sep_free_same_full_holds`). Before /repo 7e8a135 + 12a2453 (8-digit blocks
+  counted, contiguous iterators count by cursor) this held only when the integer and the fraction component both
+  carried separator flags; the former refutation witnesses are now regression theorems (`sep_free_regression_*`).
 * `strip_preserves` (R1): for the class where every digit component skips every separator (I+L+T+C), an input accepted
   as a number is accepted, as the same number, after deleting the separators. `strip_preserves_full` (all formats) is
   refuted by the I+T+C class (`strip_witness_itc`).
@@ -49,17 +50,17 @@ example :
 
 /-! ## 1. Separator-free inputs (R4) -/
 
-/-- **R4 on the model.** `c` has a separator byte and separator flags in both the integer and the fraction component
-(`SepClass`), `c'` has no separators (`PlainClass`) and agrees with `c` on every other parameter (`Counterpart`).
-Then every input without the separator byte gets the same result — value, count, error kind and index — from both,
-for the complete and the partial parser. -/
-theorem sep_free_same (c c' : Cfg) (hS : SepClass c) (hP : PlainClass c') (hC : Counterpart c c')
+/-- **R4 on the model.** `c` is any valid format in the release build (`RelClass`: separator byte and separator flags
+on any components, or none), `c'` has no separators (`PlainClass`) and agrees with `c` on every other parameter
+(`Counterpart`). Then every input without the separator byte gets the same result — value, count, error kind and
+index — from both, for the complete and the partial parser. -/
+theorem sep_free_same (c c' : Cfg) (hS : RelClass c) (hP : PlainClass c') (hC : Counterpart c c')
     (o : POpts) (isPartial : Bool) (input : List Nat) (fv : Bool) (hn : NoSep c input) :
     parseFloatSyntax c' o isPartial input fv = parseFloatSyntax c o isPartial input fv :=
   parseFloatSyntax_same c c' hS hP hC o isPartial input fv hn
 
 /-- the same one level down: `parse_number` from any cursor -/
-theorem sep_free_same_number (c c' : Cfg) (hS : SepClass c) (hP : PlainClass c') (hC : Counterpart c c')
+theorem sep_free_same_number (c c' : Cfg) (hS : RelClass c) (hP : PlainClass c') (hC : Counterpart c c')
     (isPartial : Bool) (o : POpts) (b : Bytes) (neg fv : Bool) (hn : NoSep c b.slc) :
     parseNumber c isPartial o b neg fv = parseNumber c' isPartial o b neg fv :=
   parseNumber_same c c' hS hP hC isPartial o b neg fv hn
@@ -69,6 +70,16 @@ def sep_free_same_full : Prop :=
   ∀ (c c' : Cfg), c.debug = false → (∀ k, c.skip k ≠ .unreachable) → PlainClass c' → Counterpart c c' →
     ∀ (o : POpts) (isPartial : Bool) (input : List Nat), NoSep c input →
       parseFloatSyntax c' o isPartial input = parseFloatSyntax c o isPartial input
+
+/-- the counterpart's radix condition carries over -/
+theorem relClass_of_counterpart (c c' : Cfg) (hd : c.debug = false) (hk : ∀ k, c.skip k ≠ .unreachable)
+    (hP : PlainClass c') (hC : Counterpart c c') : RelClass c :=
+  ⟨hd, hk, fun h => by rw [← hC.mantissaRadix]; exact hP.radix (by rw [hC.feats]; exact h)⟩
+
+/-- **the full statement holds** (since /repo 7e8a135 + 12a2453; it was refuted on the tree before) -/
+theorem sep_free_same_full_holds : sep_free_same_full :=
+  fun c c' hd hk hP hC o isPartial input hn =>
+    sep_free_same c c' (relClass_of_counterpart c c' hd hk hP hC) hP hC o isPartial input true hn
 
 /-! ### concrete formats (radix 10, `_`, STANDARD syntax flags; feature set radix+format) -/
 
@@ -88,14 +99,14 @@ theorem plain_class : PlainClass cPlain := by
   · intro k; cases k <;> rfl
   · intro h; cases h
 
-theorem iltc_class : SepClass cIltc := by
-  refine ⟨rfl, by decide, rfl, rfl, ?_⟩
+theorem iltc_class : RelClass cIltc := by
+  refine ⟨rfl, ?_, by decide⟩
   intro k; cases k <;> decide
 
 theorem iltc_counterpart : Counterpart cIltc cPlain := by constructor <;> rfl
 
-theorem intfrac_class : SepClass cIntFracI := by
-  refine ⟨rfl, by decide, rfl, rfl, ?_⟩
+theorem intfrac_class : RelClass cIntFracI := by
+  refine ⟨rfl, ?_, by decide⟩
   intro k; cases k <;> decide
 
 theorem intfrac_counterpart : Counterpart cIntFracI cPlain := by constructor <;> rfl
@@ -109,40 +120,50 @@ example : parseFloatSyntax cPlain {} false [49,50,51,52,53,54,55,56,46,49,50,51,
 example : ∃ n, parseFloatSyntax cIntFracI {} false [49,50,51,52,53,54,55,56,46,49,50,51,52,53,54,55,56,101,53]
     = .ok (.number n 19) ∧ n.mantissa = 1234567812345678 ∧ n.exponent = -3 := ⟨_, rfl, rfl, rfl⟩
 
-/-! ### negation witnesses for the excluded classes (all reproduce on the implementation) -/
+/-! ### regressions: the formerly excluded classes (finding `sep-format-uncounted-8digit-block`, repaired)
 
-/-- fraction-only flags: `12345678` (no separator byte in it) is rejected -/
-theorem sep_free_witness_frac_only :
-    parseFloatSyntax cFracI {} false [49,50,51,52,53,54,55,56] = .error (.err "InvalidDigit" 0) ∧
-    (∃ n, parseFloatSyntax cPlain {} false [49,50,51,52,53,54,55,56] = .ok (.number n 8)) := ⟨rfl, _, rfl⟩
+Each input below was a `decide`d refutation witness before /repo 7e8a135 + 12a2453 (the comment gives the old result);
+now the separator format agrees with the separator-free counterpart, as `sep_free_same` proves in general. -/
 
-/-- integer-only flags: `.12345678` is rejected, `1.123456789` is mis-scaled (exponent 0 instead of −9) -/
-theorem sep_free_witness_int_only :
-    parseFloatSyntax cIntI {} false [46,49,50,51,52,53,54,55,56] = .error (.err "EmptyMantissa" 9) ∧
-    (∃ n, parseFloatSyntax cPlain {} false [46,49,50,51,52,53,54,55,56] = .ok (.number n 9)) ∧
-    (∃ n, parseFloatSyntax cIntI {} false [49,46,49,50,51,52,53,54,55,56,57] = .ok (.number n 11) ∧
-      n.mantissa = 1123456789 ∧ n.exponent = -1) ∧
-    (∃ n, parseFloatSyntax cPlain {} false [49,46,49,50,51,52,53,54,55,56,57] = .ok (.number n 11) ∧
-      n.mantissa = 1123456789 ∧ n.exponent = -9) :=
-  ⟨rfl, ⟨_, rfl⟩, ⟨_, rfl, rfl, rfl⟩, ⟨_, rfl, rfl, rfl⟩⟩
+/-- the result is the number with this count, mantissa, exponent and (optional) fraction slice -/
+def numIs (r : Except Err Parsed) (cnt mant : Nat) (exp : Int) (frac : Option (List Nat)) : Bool :=
+  match r with
+  | .ok (.number n c) => c == cnt && n.mantissa == mant && n.exponent == exp && n.fraction == frac
+  | _ => false
 
-/-- exponent-only flags: `12345678` is rejected -/
-theorem sep_free_witness_exp_only :
-    parseFloatSyntax cExpI {} false [49,50,51,52,53,54,55,56] = .error (.err "InvalidDigit" 0) := rfl
+/-- fraction-only flags: `12345678` (no separator byte in it) — was `InvalidDigit 0` -/
+theorem sep_free_regression_frac_only :
+    numIs (parseFloatSyntax cFracI {} false [49,50,51,52,53,54,55,56]) 8 12345678 0 none = true ∧
+    numIs (parseFloatSyntax cPlain {} false [49,50,51,52,53,54,55,56]) 8 12345678 0 none = true := by decide
 
-/-- separator byte without any flag: `12345678` is rejected -/
-theorem sep_free_witness_no_flags :
-    parseFloatSyntax cNone {} false [49,50,51,52,53,54,55,56] = .error (.err "InvalidDigit" 0) := rfl
+/-- integer-only flags: `.12345678` — was `EmptyMantissa 9`; `1.123456789` — was mis-scaled (exponent −1, one-byte
+fraction slice) -/
+theorem sep_free_regression_int_only :
+    numIs (parseFloatSyntax cIntI {} false [46,49,50,51,52,53,54,55,56]) 9 12345678 (-8)
+      (some [49,50,51,52,53,54,55,56]) = true ∧
+    numIs (parseFloatSyntax cPlain {} false [46,49,50,51,52,53,54,55,56]) 9 12345678 (-8)
+      (some [49,50,51,52,53,54,55,56]) = true ∧
+    numIs (parseFloatSyntax cIntI {} false [49,46,49,50,51,52,53,54,55,56,57]) 11 1123456789 (-9)
+      (some [49,50,51,52,53,54,55,56,57]) = true ∧
+    numIs (parseFloatSyntax cPlain {} false [49,46,49,50,51,52,53,54,55,56,57]) 11 1123456789 (-9)
+      (some [49,50,51,52,53,54,55,56,57]) = true := by decide
 
-/-- the unrestricted statement is false on the unchanged tree -/
-theorem sep_free_same_full_false : ¬ sep_free_same_full := by
-  intro h
-  have hc : Counterpart cFracI cPlain := by constructor <;> rfl
-  have := h cFracI cPlain rfl (by intro k; cases k <;> decide) plain_class hc {} false [49,50,51,52,53,54,55,56] (by unfold NoSep; decide)
-  rw [sep_free_witness_frac_only.1] at this
-  obtain ⟨n, hn⟩ := sep_free_witness_frac_only.2
-  rw [hn] at this
-  cases this
+/-- exponent-only flags: `12345678` — was `InvalidDigit 0` -/
+theorem sep_free_regression_exp_only :
+    numIs (parseFloatSyntax cExpI {} false [49,50,51,52,53,54,55,56]) 8 12345678 0 none = true := by decide
+
+/-- separator byte without any flag: `12345678` — was `InvalidDigit 0` -/
+theorem sep_free_regression_no_flags :
+    numIs (parseFloatSyntax cNone {} false [49,50,51,52,53,54,55,56]) 8 12345678 0 none = true := by decide
+
+/-- the formerly excluded classes are instances of the general theorem -/
+theorem fracI_class : RelClass cFracI := by
+  refine ⟨rfl, ?_, by decide⟩
+  intro k; cases k <;> decide
+
+example : parseFloatSyntax cPlain {} true [49,50,51,52,53,54,55,56,57,46,49,50,51,52,53,54,55,56,57,120]
+    = parseFloatSyntax cFracI {} true [49,50,51,52,53,54,55,56,57,46,49,50,51,52,53,54,55,56,57,120] :=
+  sep_free_same cFracI cPlain fracI_class plain_class (by constructor <;> rfl) {} true _ true (by unfold NoSep; decide)
 
 /-! ## 3. Deleting the separators (R1) -/
 
